@@ -68,6 +68,19 @@ def s1(ctx):
                 if not (keyarg is not None and keyarg.k == 'param' and keyarg.a[0] == 'key'):
                     ok, why, wit = False, 'the shard is called with a different key than the one hashed', fmt_trace(p.trace)
         obs.append(Ob('S1', 'FanoutCache.%s' % name, ok and n > 0, why or 'no shard call found', f.loc(), wit))
+        # operator forms stand for the same operator of the shard (a membership test that goes through get() counts as
+        # a hit or miss and refreshes the access time / count)
+        if name in ('__contains__', '__getitem__', '__setitem__', '__delitem__'):
+            same, m = True, 0
+            for p in ctx.paths(f, 'default'):
+                for c in p.trace:
+                    if c.kind == 'CALL' and not c.d.get('inlined') and any(t.cls == 'Cache' for t in c.d['targets']):
+                        m += 1
+                        if not all(t.name == name for t in c.d['targets']):
+                            same = False
+            obs.append(Ob('S1', 'FanoutCache.%s/same-operator' % name, same and m > 0,
+                          'FanoutCache.%s does not use the shard\'s %s: the operator form then has the side effects of '
+                          'another method (statistics, access time, different failure behaviour)' % (name, name), f.loc()))
     # self._hash is the Disk.hash of a shard's disk; self._count = shards
     init = ctx.method('FanoutCache', '__init__')
     okh = okc = False
